@@ -2,3 +2,4 @@ import Norad.Props.C11
 import Norad.Props.C06
 import Norad.Props.C08
 import Norad.Props.C17
+import Norad.Props.C09
